@@ -188,6 +188,34 @@ func mayRunInParallel(a, b string) bool {
 	return true
 }
 
+// copiedStateStruct: addr is &v.f... for a local variable v of a state struct type that is assigned,
+// as a whole, a value read directly from memory (map/slice element, field, dereference): returns that value.
+func copiedStateStruct(e *e2, addr ssa.Value) ssa.Value {
+	base, ap := resolveAddr(addr)
+	al, ok := base.(*ssa.Alloc)
+	if !ok || len(ap) == 0 || al.Referrers() == nil {
+		return nil
+	}
+	if _, isState := e.isStateType(al.Type()); !isState {
+		return nil
+	}
+	for _, ref := range *al.Referrers() {
+		st, ok := ref.(*ssa.Store)
+		if !ok || st.Addr != ssa.Value(al) {
+			continue
+		}
+		v := st.Val
+		if ex, ok := v.(*ssa.Extract); ok {
+			v = ex.Tuple
+		}
+		switch v.(type) {
+		case *ssa.Lookup, *ssa.Index, *ssa.UnOp, *ssa.Field, *ssa.Next:
+			return st.Val
+		}
+	}
+	return nil
+}
+
 // origin: "shared" if the pointer/struct value derives from server-lifetime
 // state, "fresh" if allocated in this activation (or decoded by a library),
 // "?" otherwise. The string after ':' names the state field it was loaded from.
@@ -358,6 +386,13 @@ func (e *e2) originCompute(v ssa.Value, depth int) string {
 					return res
 				}
 			}
+			// field of a local copy of a state-type struct (e := table[k]; e.data): the copy keeps the
+			// references of the shared struct it was copied from
+			if src := copiedStateStruct(e, x.X); src != nil {
+				if o := e.origin(src, depth+1); strings.HasPrefix(o, "shared") {
+					return o
+				}
+			}
 			// field of a request-local repository struct (segOut, chunk, ...): field-based join over what is stored into it
 			if fa, ok := x.X.(*ssa.FieldAddr); ok && isRepoStruct(fa.X.Type()) {
 				if _, isState := e.isStateType(fa.X.Type()); !isState {
@@ -512,6 +547,11 @@ func (e *e2) stateFieldOfAddr1(addr ssa.Value, depth int) (field string, through
 					}
 				}
 				return "", false, false
+			}
+			if src := copiedStateStruct(e, x.X); src != nil {
+				if f, _, ok := e.stateFieldOfAddr(src, depth+1); ok {
+					return f, true, true
+				}
 			}
 			if fa, ok := x.X.(*ssa.FieldAddr); ok && isRepoStruct(fa.X.Type()) {
 				if _, isState := e.isStateType(fa.X.Type()); !isState {
